@@ -17,6 +17,7 @@ type Profile struct {
 	Odd       bool // odd Allocate options (C19)
 	MTU       bool // draw InboundMTU
 	V6        bool // allow the IPv6 listener variant
+	Streams   bool // some clients use a TCP control connection
 	SlowCB    bool // slow lifecycle callbacks
 	Coincide  bool // coincidence mode: equal timeouts so that expiries collide (C15/C18)
 	LongAlloc bool // allocation lifetime 2 h so that permission/channel horizons are not cut short (C07)
@@ -73,6 +74,13 @@ func genConfig(rt *rapid.T, p *Profile) Config {
 		perm := rapid.Permutation([]int{0, 1, 2, 3}).Draw(rt, "clientPool")
 		cfg.Clients = perm[:nc]
 	}
+	if p.Streams && !cfg.ServerV6 {
+		for i := 0; i < nc; i++ {
+			if rapid.IntRange(0, 2).Draw(rt, "stream") == 0 {
+				cfg.Stream = append(cfg.Stream, i)
+			}
+		}
+	}
 	switch rapid.IntRange(0, 5).Draw(rt, "denyKind") {
 	case 0:
 		cfg.Deny = nil
@@ -125,7 +133,7 @@ func pickOp(rt *rapid.T, p *Profile, label string) string {
 	return ops[0]
 }
 
-var opOrder = []string{"Allocate", "Refresh", "CreatePermission", "ChannelBind", "Send", "ChannelData", "PeerData", "Binding", "Sleep", "RelayError", "CloseServer", "Connect", "ConnectionBind", "PeerConnect", "TCPData", "TCPClose", "Hostile"}
+var opOrder = []string{"CloseControl", "Allocate", "Refresh", "CreatePermission", "ChannelBind", "Send", "ChannelData", "PeerData", "Binding", "Sleep", "RelayError", "CloseServer", "Connect", "ConnectionBind", "PeerConnect", "TCPData", "TCPClose", "Hostile"}
 
 func genLen(rt *rapid.T, p *Profile, label string) int {
 	if p.BigData {
